@@ -1457,6 +1457,12 @@ func (rn *runner) step() {
 			// predecessor and carries its certificate, and everyone precommits whatever proposal the mirror holds
 			rn.stats["script_fork_attempt"]++
 			rn.script = []string{"propose", "precommit-nil-one", "precommit-most", "late-fork-precommits", "propose-fork", "precommit-all", "gread"}
+		case y == 13:
+			// a height is committed, then a proposal for the next height whose previous-commit proof carries, next to the
+			// genuine majority entry, a second entry mixing one authentic precommit with a junk signature: it must be refused.
+			// Only reachable with -template 13.
+			rn.stats["script_mixed_rest_entry"]++
+			rn.script = []string{"propose-wide", "precommit-all", "propose-wide", "precommit-all", "propose", "precommit-nil-one", "precommit-most", "propose-mixed-proof", "gread", "propose", "precommit-all"}
 		case y == 12 && replayMode:
 			// a replayed header for a round TWO ahead of the voting round: once with a genuine certificate for that round
 			// (accepted), once with a certificate whose signatures were made for the next round (must be refused); after a
@@ -2215,6 +2221,8 @@ func (rn *runner) scripted(op string, v, c *tmconsensus.VersionedRoundView) bool
 		rn.doVotes(kindPrecommit, H, R, pkh, []voteEntry{{target, rn.mkSigs(cur, kindPrecommit, H, R, target, allIdx(n), 0)}})
 	case "propose":
 		rn.proposal(v, c, H, R, 0)
+	case "propose-mixed-proof":
+		rn.proposal(v, c, H, R, 13)
 	case "replay-known":
 		rn.forceReplay = 10
 		rn.replay(v, c)
@@ -2413,6 +2421,36 @@ func (rn *runner) proposal(v, c *tmconsensus.VersionedRoundView, H uint64, R uin
 			}
 		}
 	}
+	if variant == 13 && h > rn.initH {
+		// an entry for another block (or nil) that MIXES an authentic precommit with a signature no validator made, filed under
+		// the key id of a validator that signed nothing in this proof (so that no double signature hides the flaw): the
+		// proposal must be refused although that entry contributes a signature (scripted, template 13)
+		main := c.VoteSummary.MostVotedPrecommitHash
+		vsC := rn.valsFor(c.Height)
+		have := map[string]bool{}
+		other := "\x00none"
+		for k, ss := range pcp.Proofs {
+			for _, sg := range ss {
+				have[string(sg.KeyID)] = true
+			}
+			if k != main && len(ss) > 0 {
+				other = k
+			}
+		}
+		silent := -1
+		for i := range vsC.keys {
+			if !have[string(keyID16(i))] {
+				silent = i
+				break
+			}
+		}
+		if other != "\x00none" && silent >= 0 {
+			pcp.Proofs[other] = append(append([]gcrypto.SparseSignature{}, pcp.Proofs[other]...), gcrypto.SparseSignature{KeyID: keyID16(silent), Sig: w.junkSig()})
+			rn.stats["commit_proof_rest_entry_mixed_scripted"]++
+		} else {
+			rn.stats["commit_proof_rest_entry_mixed_not_applicable"]++
+		}
+	}
 	if variant == 10 { // tampered commit proof: drop signatures / add a foreign entry / junk signature
 		switch w.r.below(3) {
 		case 0:
@@ -2423,6 +2461,12 @@ func (rn *runner) proposal(v, c *tmconsensus.VersionedRoundView, H uint64, R uin
 			}
 		case 1:
 			pcp.Proofs["foreign-block"] = rn.mkSigs(rn.valsFor(h-1), kindPrecommit, h-1, pcp.Round, "foreign-block", []int{0}, 0)
+			if w.r.chance(1, 2) && len(rn.valsFor(h-1).keys) > 1 {
+				// ... a second entry that MIXES an authentic precommit with a signature no validator made: the proof must be
+				// refused although the entry contributes a signature
+				pcp.Proofs["foreign-block"] = append(pcp.Proofs["foreign-block"], gcrypto.SparseSignature{KeyID: keyID16(1), Sig: w.junkSig()})
+				rn.stats["commit_proof_rest_entry_mixed"]++
+			}
 		default:
 			for k := range pcp.Proofs {
 				if len(pcp.Proofs[k]) > 0 {
